@@ -21,6 +21,7 @@ import (
 )
 
 type walker struct {
+	noAlias bool // value hash: pointer sharing between siblings is not part of the hash
 	h       hash.Hash
 	seen    map[uintptr]int
 	skip    map[string]bool // field names to skip
@@ -132,12 +133,19 @@ func (w *walker) walk(v reflect.Value, depth int) {
 		}
 		p := v.Pointer()
 		if id, ok := w.seen[p]; ok {
-			w.w(fmt.Sprintf("ref#%d", id))
+			if w.noAlias {
+				w.w("cycle")
+			} else {
+				w.w(fmt.Sprintf("ref#%d", id))
+			}
 			return
 		}
 		w.seen[p] = len(w.seen)
 		w.w("&")
 		w.walk(v.Elem(), depth+1)
+		if w.noAlias {
+			delete(w.seen, p) // only guards against cycles on the current path
+		}
 	case reflect.Interface:
 		if v.IsNil() {
 			w.w("inil")
@@ -208,6 +216,17 @@ func (w *walker) walk(v reflect.Value, depth int) {
 // unexported fields to be readable). skipFields names struct fields to ignore everywhere.
 func Hash(x interface{}, skipFields ...string) string {
 	w := &walker{h: sha256.New(), seen: map[uintptr]int{}, skip: map[string]bool{}}
+	for _, s := range skipFields {
+		w.skip[s] = true
+	}
+	w.walk(reflect.ValueOf(x), 0)
+	return hex.EncodeToString(w.h.Sum(nil))[:32]
+}
+
+// ValueHash is Hash without sensitivity to pointer sharing: two structures with equal values hash
+// equal whether or not they alias sub-objects.
+func ValueHash(x interface{}, skipFields ...string) string {
+	w := &walker{h: sha256.New(), seen: map[uintptr]int{}, skip: map[string]bool{}, noAlias: true}
 	for _, s := range skipFields {
 		w.skip[s] = true
 	}
